@@ -221,7 +221,7 @@ func unsupported(f string, a ...interface{}) {
 // lazyInitPkgs: interpreted standard-library packages whose package-level tables must hold their real
 // initial values; their initialiser is executed (own globals only) when one of their globals is first read.
 var lazyInitPkgs = map[string]bool{"unicode/utf8": true, "unicode": true, "strconv": true, "strings": true, "bytes": true,
-	"sort": true, "path": true, "math/bits": true, "encoding/hex": true, "container/heap": true, "container/list": true, "unicode/utf16": true}
+	"sort": true, "path": true, "math/bits": true, "encoding/hex": true, "container/heap": true, "container/list": true, "unicode/utf16": true, "encoding/base64": true, "encoding/binary": true}
 
 func (in *Interp) ensurePkgInit(g *ssa.Global) {
 	if g.Pkg == nil || in.isModulePkg(g.Pkg) || !lazyInitPkgs[g.Pkg.Pkg.Path()] || in.pkgInited[g.Pkg] || in.cur == nil {
